@@ -847,7 +847,7 @@ class Dict(dict, base.Symbolic, pg_typing.CustomTyping):
     # NOTE: keys are dict keys, not key paths ('a.b' is the key 'a.b').
     self.rebind(
         {utils.KeyPath(k): v for k, v in updates.items()},
-        raise_on_no_change=False, skip_notification=True)
+        raise_on_no_change=False)
 
   def __ior__(self, other) -> 'Dict':   # pytype: disable=signature-mismatch
     """In-place union: same as `update`."""
